@@ -701,6 +701,20 @@ class Interp:
             return st.fresh_int(w, True, op)
         if op == 'and':
             k, x = (ca, b) if ca is not None else ((cb, a) if cb is not None else (None, None))
+            if k is not None and k > 0 and (k & (k + 1)) == 0:
+                xu = st.as_u(x)
+                if xu is not None:
+                    if st.cons.entails_le(xu, k):
+                        return IntVal(w, xu, None)
+                    # x & (2^j - 1) == x mod 2^j : exact Euclidean relation shared with udiv/lshr
+                    mk = ('udivrem', w, xu.key(), k + 1)
+                    q = st.conv.get(mk)
+                    if q is None:
+                        q = st.fresh_int(w, False, 'quot').u
+                        st.cons.add_le(q * (k + 1), xu)
+                        st.cons.add_le(xu, q * (k + 1) + k)
+                        st.conv[mk] = q
+                    return IntVal(w, xu - q * (k + 1), None)
             r = st.fresh_int(w, False, 'and')
             if k is not None:
                 st.cons.add_le(r.u, k)
@@ -1597,7 +1611,7 @@ class Interp:
                             c2 = dd.subst({k: Lin.sym(v) for k, v in hs.items()})
                             found[c2.key()] = c2
                 if found:
-                    partners = list(found.values())[:40]
+                    partners = sorted(found.values(), key=lambda c_: (len(c_.t), str(c_.key())))[:150]
                     templ = None
                     continue
             keep = []
@@ -1746,6 +1760,9 @@ class Interp:
                 if signs.get(('pstride', ph.id)):
                     stride = 1
                 x = H.fresh_int(64, True, 'pidx_' + hint)
+                if not hasattr(self, '_pphi_obj'):
+                    self._pphi_obj = {}
+                self._pphi_obj[ph.id] = iv.obj
                 H.env[('i', ph.id)] = PtrVal(iv.obj, iv.off + x.s * stride, iv.lo, iv.hi, iv.nonnull)
                 newsyms.append((x.s, Lin(0), ('pphi', ph, stride, iv.off), 64, True))
             elif isinstance(iv, CondVal):
@@ -1920,6 +1937,24 @@ class Interp:
                 for k in (0, -1):
                     add(xl - yl - k)      # x <= y + k
                     add(yl - xl - k)      # x >= y - k
+        for n, (xl, init, what, w, signed) in enumerate(newsyms):
+            if what[0] == 'pphi' and init is not None:
+                ph, stride, base_off = what[1], what[2], what[3]
+                cur = st.env.get(('i', ph.id))
+                pv = None
+                for (bb, v) in ph.incoming:
+                    pass
+                obj = self._pphi_obj.get(ph.id) if hasattr(self, '_pphi_obj') else None
+                if obj is not None:
+                    o = st.objs.get(obj)
+                    off = base_off + Lin.sym(('$', n)) * stride
+                    if o is not None:
+                        add(-off)                       # offset >= 0
+                        if o.size is not None:
+                            add(off - o.size)           # offset <= object size (one past the end allowed)
+                        if o.info.get('cstr_len') is not None:
+                            add(off - o.info['cstr_len'])       # cursor <= terminator position
+                            add(off - o.info['cstr_len'] - 1)
         for c in partners:
             for k in (0, 1, 2, -1):
                 add(c - k)
@@ -1930,10 +1965,9 @@ class Interp:
                 pairs = [(1, 1), (1, -1)]
                 pa = next(iter(xa.t)) in ptrish
                 pb = next(iter(xb.t)) in ptrish
-                if pa and not pb:
-                    pairs += [(1, -2), (1, -4), (1, -8), (1, 2), (1, 4), (1, 8)]
-                if pb and not pa:
-                    pairs += [(-2, 1), (-4, 1), (-8, 1), (2, 1), (4, 1), (8, 1)]
+                if pa != pb:
+                    pairs += [(1, -2), (1, -4), (1, -8), (1, 2), (1, 4), (1, 8),
+                              (-2, 1), (-4, 1), (-8, 1), (2, 1), (4, 1), (8, 1)]
                 if pa and pb:
                     pairs += [(1, -2), (2, -1)]
                 for ka, kb in pairs:
